@@ -2,8 +2,8 @@
 from harness import check, replay
 
 LENSES = {
-    "quick": ["binder_names", "binder_integ", "binder_indep"],
-    "thorough": ["binder_names", "binder_integ", "binder_indep"],
+    "quick": ["binder_names", "binder_integ", "binder_indep", "delta_indep"],
+    "thorough": ["binder_names", "binder_integ", "binder_indep", "delta_indep"],
 }
 
 
